@@ -640,7 +640,7 @@ func (s *c15Sess) doEnv(a C15Action, sn *c15Snap) string {
 		}
 		return out
 	}
-	h := s.host
+	h := s.cwd
 	s.envSeq++
 	switch a.Kind {
 	case "env-pack-refs":
@@ -827,6 +827,10 @@ func (s *c15Sess) foreignActed(before, after *c15Snap) {
 func (s *c15Sess) configFindingKey(kv string) string {
 	if s.foreignTouchedCfg[c15ConfigKey(kv)] {
 		return "foreign-config-change-lost:" + configSection(kv)
+	}
+	if strings.Contains(kv, "\r") || s.crTwin[kv] {
+		// whatever the section: a value with a carriage return is its own input class
+		return "foreign-config-key-changed:carriage-return-in-value"
 	}
 	return "foreign-config-key-changed:" + configSection(kv)
 }
